@@ -443,12 +443,14 @@ func fromRaceReplay(rp *Replay) raceInput {
 	return ri
 }
 
-func raceReproduces(rp *Replay) (bool, *Violation) {
+func raceReproduces(rp *Replay) (bool, *Violation) { return raceReproducesN(rp, 4) }
+
+func raceReproducesN(rp *Replay, attempts int) (bool, *Violation) {
 	if rp.Race == nil || os.Getenv("DST_NODE_RACE") == "" {
 		return false, nil
 	}
 	ri := fromRaceReplay(rp)
-	for attempt := 0; attempt < 4; attempt++ {
+	for attempt := 0; attempt < attempts; attempt++ {
 		ro, reports, fatal := runRaceNode(ri, 20*time.Minute)
 		if raceMatches(rp.Expected, reports, ro, fatal) {
 			return true, rp.Expected
@@ -466,16 +468,25 @@ func (c *checker) makeRaceReplay(fv *foundViolation) string {
 	rounds := rf.rounds * 2
 	test := func(s [][]raceReq) bool {
 		c.minimiseRuns++
-		ok, _ := raceReproduces(toRaceReplay(s, rounds, &fv.v))
+		ok, _ := raceReproducesN(toRaceReplay(s, rounds, &fv.v), 1) // one attempt: reductions must be cheap
 		return ok
 	}
-	if !test(full) {
+	confirm := func(s [][]raceReq) bool {
+		c.minimiseRuns++
+		ok, _ := raceReproducesN(toRaceReplay(s, rounds, &fv.v), 3)
+		return ok
+	}
+	if !confirm(full) {
 		infra("race report %s did not reproduce with the same request sets (logged; no verdict): %s", fv.v.Key, clip(fv.v.Detail, 400))
 	}
 	// a reduction is only accepted when it reproduces twice in a row (the interleaving is not ours)
 	twice := func(s [][]raceReq) bool { return test(s) && test(s) }
 	sets := full
-	budget := 24
+	budget := 28
+	c.raceReplays++
+	if c.raceReplays > 2 {
+		budget = 0 // several pairs usually stem from one cause: only the first two replays are reduced
+	}
 	for len(sets) > 1 && budget > 0 {
 		half := len(sets) / 2
 		budget -= 2
@@ -499,7 +510,7 @@ func (c *checker) makeRaceReplay(fv *foundViolation) string {
 			}
 		}
 	}
-	if !test(sets) && !test(sets) {
+	if !confirm(sets) {
 		sets = full // the reduced form is not reliable enough: keep what was observed
 	}
 	rp := toRaceReplay(sets, rounds, &fv.v)
